@@ -11,6 +11,10 @@ def max_pair_coverage(array1: npt.NDArray[np.int32], array2: npt.NDArray[np.int3
     def hash_pair(el1: np.int32, el2: np.int32):
         return (el1 * 1471343 - el2) % max_size
 
+    # category codes arrive as int8/int16; the hash multiplier does not fit those types
+    array1 = np.asarray(array1, dtype=np.int64)
+    array2 = np.asarray(array2, dtype=np.int64)
+
     counts = np.zeros(max_size, dtype=np.int32)
     tot_len = len(array1)
     for i in range(tot_len):
